@@ -26,7 +26,7 @@ def opts(tier):
     o.long_run_p = 0.006
     o.short_last_p = 0.05
     o.equal_shapes_p = 0.15
-    return o
+    return gen.deepen(o, tier)
 
 
 def generate(rng, tier):
